@@ -178,6 +178,37 @@ func c10Generate(thorough bool) []c10Case {
 			}
 		}
 	}
+	// F4: identifiers and keywords that differ only in NON-ASCII case. SQLite folds ASCII letters only:
+	// "é"/"É", "k"/Kelvin sign, "s"/long s, "i"/dotless i are different names, and a word that only
+	// becomes a keyword under Unicode case mapping (unıque, prımary, ıNTEGER) is a plain identifier.
+	pairs := [][2]string{{"é", "É"}, {"k", "\u212a"}, {"s", "ſ"}, {"i", "ı"}, {"ǆ", "ǅ"}}
+	for _, pr := range pairs {
+		for _, xy := range [][2]string{{pr[0], pr[1]}, {pr[1], pr[0]}} {
+			x, y := xy[0], xy[1]
+			for _, w := range wr {
+				add("unicode-case", "CREATE TABLE t ("+x+", "+y+", PRIMARY KEY ("+y+"))"+w)
+				add("unicode-case", "CREATE TABLE t ("+x+", "+y+", PRIMARY KEY ("+y+", "+x+" DESC))"+w)
+			}
+			add("unicode-case", "CREATE TABLE t ("+x+", "+y+" UNIQUE)")
+			add("unicode-case", "CREATE TABLE t ("+x+" COLLATE NOCASE, "+y+", UNIQUE ("+x+"), UNIQUE ("+y+"))")
+			add("unicode-case", "CREATE TABLE t ("+x+" INTEGER PRIMARY KEY, "+y+" UNIQUE)")
+			add("unicode-case", "CREATE TABLE t ("+x+" TEXT COLLATE RTRIM, "+y+")", "CREATE INDEX i1 ON t ("+y+")")
+			add("unicode-case", "CREATE TABLE t ("+x+" TEXT COLLATE RTRIM, "+y+")", "CREATE INDEX i1 ON t ("+x+")", "CREATE INDEX "+x+" ON t ("+y+")", "CREATE INDEX "+y+" ON t ("+x+" DESC)")
+		}
+	}
+	for _, ty := range []string{"ıNTEGER", "ınteger", "INTEGEɌ", "İNTEGER", "ıNT"} {
+		for _, w := range wr {
+			add("unicode-case", "CREATE TABLE t (a "+ty+" PRIMARY KEY, b)"+w)
+			add("unicode-case", "CREATE TABLE t (b, a "+ty+", PRIMARY KEY (a))"+w)
+		}
+	}
+	for _, kw := range []string{"unıque", "UNIQUE", "prımary key", "deſc", "aſc", "ıs", "collate nocaſe", "not null", "not nulL", "ındex", "conſtraint", "wıthout rowıd", "default nulL", "autoıncrement", "referenceſ"} {
+		// as a type name (legal: a type is any run of identifiers) and as a column name
+		add("unicode-case", "CREATE TABLE t (a "+kw+", b)")
+		add("unicode-case", "CREATE TABLE t (a INTEGER PRIMARY KEY "+kw+", b)")
+		add("unicode-case", "CREATE TABLE t (a, "+kw+")")
+		add("unicode-case", "CREATE TABLE t (a PRIMARY KEY, b) "+kw)
+	}
 	return cases
 }
 
@@ -220,12 +251,12 @@ func c10Lite(l *lite.DB) (*c10View, error) {
 	v := &c10View{Cols: t.Cols, WR: t.WithoutRowid, Indexes: map[string]c10Index{}}
 	for i := range t.Indexes {
 		ix := &t.Indexes[i]
-		ci := c10Index{Name: strings.ToLower(ix.Name)}
+		ci := c10Index{Name: FoldID(ix.Name)}
 		for _, c := range ix.Cols {
 			if !c.Key {
 				continue
 			}
-			name := strings.ToLower(c.Name)
+			name := FoldID(c.Name)
 			if c.Cid == -2 {
 				name = "<expr>"
 			}
@@ -264,7 +295,7 @@ func c10Lite(l *lite.DB) (*c10View, error) {
 		id := rows[0][0].(int64)
 		for i := range t.Cols {
 			if id == int64(70+i) {
-				v.Alias = strings.ToLower(t.Cols[i])
+				v.Alias = FoldID(t.Cols[i])
 			}
 		}
 	} else {
@@ -284,13 +315,13 @@ func c10Little(s *sdb.Schema) *c10View {
 	for _, c := range s.Columns {
 		v.Cols = append(v.Cols, c.Column)
 		if c.Rowid {
-			v.Alias = strings.ToLower(c.Column)
+			v.Alias = FoldID(c.Column)
 		}
 	}
 	conv := func(cols []sdb.IndexColumn) []string {
 		var out []string
 		for _, c := range cols {
-			name := strings.ToLower(c.Column)
+			name := FoldID(c.Column)
 			if c.Column == "" {
 				name = "<expr>"
 			}
@@ -306,18 +337,18 @@ func c10Little(s *sdb.Schema) *c10View {
 		return out
 	}
 	for _, ix := range s.Indexes {
-		v.Indexes[strings.ToLower(ix.Index)] = c10Index{Name: strings.ToLower(ix.Index), Cols: conv(ix.Columns)}
+		v.Indexes[FoldID(ix.Index)] = c10Index{Name: FoldID(ix.Index), Cols: conv(ix.Columns)}
 	}
 	if s.WithoutRowid {
 		v.PK = conv(s.PK)
 	} else if s.PrimaryKey != "" {
-		v.PKIndex = strings.ToLower(s.PrimaryKey)
+		v.PKIndex = FoldID(s.PrimaryKey)
 	}
 	return v
 }
 
 func runC10(r *ev.Run) {
-	r.Rule = "grammar-directed enumeration of CREATE TABLE statements (1-3 columns; types {none, INTEGER, integer, INT, TEXT, INTEGER(5)}; every ordered list of <=2 (3 thorough) column constraints from 15; 0-2 table constraints from 20 incl. duplicate/overlapping/re-ordered/collated/DESC ones and CONSTRAINT names; WITHOUT ROWID; 6 identifier spellings) and CREATE INDEX statements (UNIQUE, column permutations, per-column COLLATE/DESC, partial, expression columns, one or two indexes) on 5 base tables; only statements real SQLite accepts are judged; oracle: PRAGMA table_xinfo/index_list/index_xinfo + a behavioural rowid-alias probe + reading the probe row back. A definition sqlittle rejects is fine; an explicit index it leaves out is fine; every index it reports must match SQLite's index of that name; every automatic index must be reported. non-trivial = statements with at least one index or a primary key"
+	r.Rule = "grammar-directed enumeration of CREATE TABLE statements (1-3 columns; types {none, INTEGER, integer, INT, TEXT, INTEGER(5)}; every ordered list of <=2 (3 thorough) column constraints from 15; 0-2 table constraints from 20 incl. duplicate/overlapping/re-ordered/collated/DESC ones and CONSTRAINT names; WITHOUT ROWID; 6 identifier spellings; identifiers, type names and keywords that differ only in non-ASCII case - SQLite folds ASCII only) and CREATE INDEX statements (UNIQUE, column permutations, per-column COLLATE/DESC, partial, expression columns, one or two indexes) on 5 base tables; only statements real SQLite accepts are judged; oracle: PRAGMA table_xinfo/index_list/index_xinfo + a behavioural rowid-alias probe + reading the probe row back. A definition sqlittle rejects is fine; an explicit index it leaves out is fine; every index it reports must match SQLite's index of that name; every automatic index must be reported. non-trivial = statements with at least one index or a primary key"
 	cases := c10Generate(r.Thorough())
 	r.Set("generated_statements", len(cases))
 	// one SQLite connection per worker, reused (the table is dropped between cases)
@@ -434,7 +465,7 @@ func c10One(r *ev.Run, l *lite.DB, c *c10Case) {
 		r.Sample(art)
 	}
 	stmt := strings.Join(c.stmts, "; ")
-	if !strings.EqualFold(strings.Join(got.Cols, ","), strings.Join(want.Cols, ",")) {
+	if !SameID(strings.Join(got.Cols, ","), strings.Join(want.Cols, ",")) {
 		r.Violation("C10:columns"+cls, fmt.Sprintf("%s: columns %v, SQLite %v", stmt, got.Cols, want.Cols), art)
 		return
 	}
